@@ -99,6 +99,25 @@ def probe_contract(name, D, N, seed):
             ok = ok and abs(np.max(np.abs(b)) - 1) < 1e-10
         except TypeError:
             pass
+    if name in ("RandomSineWaves1d", "RandomTruncatedFourierSeries"):
+        # the options must hold TOGETHER with a non-zero mean offset: unit maximum / unit std refer to the returned field
+        for okw, label in (({"max_one": True}, "max_one+offset"), ({"std_one": True}, "std_one+offset")):
+            try:
+                gg = G[name](offset_range=(0.5, 1.5), **okw)
+            except (TypeError, ValueError):
+                continue      # documented as an invalid combination for this generator
+            w = np.asarray(gg(N, key=key))
+            if "max_one" in okw:
+                res[label] = float(np.max(np.abs(w)))
+                ok = ok and abs(res[label] - 1) < 1e-10
+            else:
+                res[label] = float(w.std())
+                ok = ok and abs(res[label] - 1) < 1e-10
+            if hasattr(gg, "gen_ic_fun") and name == "RandomSineWaves1d":
+                grid = ex.make_grid(D, gg.domain_extent, N)
+                wf = np.asarray(gg.gen_ic_fun(key=key)(grid))
+                res[label + ":function_form"] = float(np.max(np.abs(wf - w)))
+                ok = ok and res[label + ":function_form"] < 1e-12
     if name == "RandomTruncatedFourierSeries":
         off = 2.25
         c = np.asarray(ic.RandomTruncatedFourierSeries(D, cutoff=3, offset_range=(off, off + 1e-12))(N, key=key))
